@@ -91,6 +91,7 @@ class State:
         return s
 
 
+MUTATORS = {"take", "replace", "remove", "remove_entry", "clear", "drain", "pop", "retain", "truncate", "swap_remove", "entry", "get_or_insert", "get_or_insert_with", "insert_unique", "extend", "append", "swap", "sort", "sort_by", "dedup", "reverse", "rotate_left", "rotate_right", "split_off", "get_mut", "iter_mut", "values_mut", "as_mut", "last_mut", "first_mut", "set", "push_front", "pop_front", "pop_back"}
 ALIAS = {}  # actual function key -> role name (vlib/roles.py): canonical hole names do not depend on what a helper is called
 
 
@@ -817,6 +818,11 @@ class Interp:
         if k == "hole" and rv.get("kind") == "field" and m in ("insert",):
             st.effects.append(("insert", rv["field"], argv))
             return [(st, {"v": "unit"})]
+        if k == "hole" and rv.get("kind") == "field" and m in MUTATORS:
+            # the generator's own state is changed in a way the interpreter has no model for: every rule that reads the
+            # paths of this function must treat them as not understood (fail closed)
+            st.unknown.append("state-changing call self.%s.%s(..) is not modelled" % (rv.get("field"), m))
+            return [(st, H("mcall", src(e), method=m, recv=rv, args=argv, ty=None))]
         if k == "hole" and rv.get("kind") == "field" and m in ("get", "contains_key"):
             return [(st, H("lookup", src(e), field=rv["field"], key=argv, method=m))]
         if k == "hole" and rv.get("kind") == "payload" and m == "compile":
